@@ -214,8 +214,10 @@ class C10(HistoryProperty):
 
     def signature(self, case, violation):
         d = violation.get("detail", {})
+        # (evaluate may even succeed: a sibling that forces the effect's option fills the shared cache first, and the hit
+        #  skips the effect that validate() insists on)
         if (violation["kind"] == "validate-keys-evaluate-disagree" and d.get("keys", [""])[0] == "ok" and d.get("validate", [""])[0] == "err"
-                and d.get("evaluate", [""])[0] == "err" and any(n.get("effects_opt") for n in case["spec"]["nodes"] if n["k"] == "dataset")):
+                and any(n.get("effects_opt") for n in case["spec"]["nodes"] if n["k"] == "dataset")):
             return "effect-option-missing-keys-succeeds"
         if gen.scalar_at_section_prefix(case["spec"], [op["o"] for op in case["ops"] if "o" in op]):
             return "scalar-at-section-prefix"
